@@ -527,6 +527,20 @@ class Ctx:
             allok = False
             self.broken("grep-gate", "; ".join(bad[:10]))
         self.coq_deps_list = deps
+        if self.thorough and allok:
+            # independent re-check of the compiled theory and everything it depends on
+            mod = "Garden." + prop_file[:-2].replace("/", ".")
+            with Lock("coq"):
+                rc, out, err = sh(["coqchk", "-o", "-silent", "-Q", ".", "Garden", mod], cwd=COQ, timeout=1800)
+            txt = out + err
+            m = re.search(r"\* Axioms:\s*(.*?)\n\s*\n", txt, re.S)
+            axioms = m.group(1).strip() if m else "?"
+            okk = rc == 0 and axioms == "<none>" and "type-in-type: <none>" in txt and "unsafe (co)fixpoints: <none>" in txt \
+                and "positivity is assumed: <none>" in txt
+            self.obligations.append({"name": "coqchk:" + mod, "ok": okk, "detail": "coqchk -o: Axioms: " + axioms})
+            if not okk:
+                allok = False
+                self.broken("coqchk", txt[-1500:])
         try:
             self.tables_hash = sha(open(os.path.join(COQ, "gen", "Tables.v")).read())[:16]
         except OSError:
